@@ -40,7 +40,7 @@ def generate(rng):
     scn['costs'] = gen_costs(rng)
     scn['maxread'] = rng.choice([1, 2, 7, 100, 2000, 2000, 65536])
     scn['size'] = rng.choice([1, 2, 5, 64, 1000, 2000, 100000])
-    scn['mode'] = rng.choice(['rnb', 'rnb', 'expect_eof', 'read_all'])
+    scn['mode'] = rng.choice(['rnb', 'rnb', 'expect_eof', 'read_all', 'read_n'])
     scn['T'] = rng.choice([0, 0, 0.0005, 0.01, 0.1, None, -1])
     scn['timeout'] = rng.choice([0.002, 0.05])
     if scn['T'] is None and tr == 'popen':
@@ -277,6 +277,48 @@ def _drain(r, scn):
                 w.sleep(scn.get('pause_us', 500))
                 continue
             reads.append(s)
+    elif mode == 'read_n':
+        # the application first looks for a banner that never comes (a bounded search that times out and trims the search
+        # buffer), then takes the stream apart with read(size)
+        never = u'\x00NEVER\x00' if child.encoding else b'\x00NEVER\x00'
+        pre_eof = False
+        try:
+            child.expect_exact([never], timeout=(T if isinstance(T, (int, float)) and T > 0 else 0.002))
+        except TIMEOUT:
+            pass
+        except EOF:
+            reads.append(child.before)       # the stream ended during the search: everything is handed back here
+            pre_eof = True
+        n_ = max(1, min(int(size), 4096))
+        if len(_truth(r)) // n_ > 3000:
+            n_ = max(n_, len(_truth(r)) // 3000 + 1)
+        empties = 0
+        while True:
+            if pre_eof:
+                ended = 'EOF'
+                break
+            timed_out = False
+            try:
+                s = child.read(n_)
+            except TIMEOUT:
+                s = child.string_type()       # nothing handed back: what was read stays pending for the next read()
+                timed_out = True
+            except EOF:
+                ended = 'EOF'
+                break
+            if len(s):
+                reads.append(s)
+                empties = 0
+                continue
+            if not timed_out and getattr(child, 'flag_eof', False):
+                ended = 'EOF'       # read() RETURNED nothing: the end of the stream, nothing left
+                break
+            empties += 1
+            if stalled():
+                ended = 'budget'
+                break
+            w.sleep(scn.get('pause_us', 500))
+        reads = [child.string_type().join(reads)]
     else:
         acc = child.string_type()
         while True:
